@@ -623,10 +623,18 @@ fn handle_run_request(
                 Err(CommandError::Action(EvalAction::Skip)) => {
                     let stack_frame = env.stack.0.last_mut().unwrap();
 
-                    stack_frame
-                        .exprs_to_eval
-                        .pop()
-                        .expect("Tried to skip an expression, but none in this frame.");
+                    if stack_frame.exprs_to_eval.pop().is_none() {
+                        // Nothing is pending, e.g. `:skip` was sent
+                        // when no evaluation had stopped.
+                        return Response {
+                            kind: ResponseKind::RunCommand {
+                                message: "No expression to skip.".to_owned(),
+                                stack_frame_name: Some(env.top_frame_name()),
+                            },
+                            position: None,
+                            id,
+                        };
+                    }
 
                     eval_to_response(env, session)
                 }
